@@ -28,7 +28,16 @@ go build ./... || { echo "[confirm] does not build"; git checkout -q -- .; git c
 go test -count=1 -timeout 5m -run "^($run)\$" $pkgs > /tmp/confirm.$id.$m.mut.txt 2>&1; rc_mut=$?
 # existing suite with the change (demo files removed)
 for f in $(find "$out/demo" -type f); do p=$(head -1 "$f" | sed -n 's#^// *path: *##p'); [ -n "$p" ] && rm -f "$p"; done
-go test -vet=off -count=1 -timeout 8m -p 6 ./... > /tmp/confirm.$id.$m.suite.txt 2>&1; rc_suite=$?
+# Only packages whose test binaries can differ are run: those that (transitively, tests included) import a package
+# the patch touches. The other packages' binaries are byte-identical to the unchanged tree's, whose suite passes.
+changed=$(grep '^+++ b/' "$out/patch.diff" | sed 's#^+++ b/##' | xargs -n1 dirname | sort -u | awk '{ if ($0==".") print "go.brendoncarroll.net/p2p"; else print "go.brendoncarroll.net/p2p/"$0 }')
+affected=""
+for p in $(go list ./...); do
+  deps=$(go list -test -deps $p 2>/dev/null)
+  for c in $changed; do if echo "$deps" | grep -qx "$c"; then affected="$affected $p"; break; fi; done
+done
+echo "[confirm] packages affected by the patch:$affected"
+go test -vet=off -count=1 -timeout 8m -p 4 $affected > /tmp/confirm.$id.$m.suite.txt 2>&1; rc_suite=$?
 if [ $rc_suite -ne 0 ]; then
   failed=$(grep '^FAIL' /tmp/confirm.$id.$m.suite.txt | awk '{print $2}' | grep -v '^$' | sort -u | tr '\n' ' ')
   echo "[confirm] suite failed in: $failed - re-running those packages"
